@@ -819,46 +819,43 @@ func writeSwitchCaseOverUnion(w *formatting.IndentedWriter, unionType *dsl.Gener
 
 func writeTypeConversion(w *formatting.IndentedWriter, t dsl.Type, next func()) {
 	getWrapper := func(t dsl.Type) (string, string) {
-		switch t := t.(type) {
-		case *dsl.SimpleType:
-			switch t := t.ResolvedDefinition.(type) {
-			case dsl.PrimitiveDefinition:
-				switch t {
-				case dsl.Bool:
-					return "logical(", ")"
-				case dsl.Int8:
-					return "int8(", ")"
-				case dsl.Uint8:
-					return "uint8(", ")"
-				case dsl.Int16:
-					return "int16(", ")"
-				case dsl.Uint16:
-					return "uint16(", ")"
-				case dsl.Int32:
-					return "int32(", ")"
-				case dsl.Uint32:
-					return "uint32(", ")"
-				case dsl.Int64:
-					return "int64(", ")"
-				case dsl.Uint64, dsl.Size:
-					return "uint64(", ")"
-				case dsl.Float32:
-					return "single(", ")"
-				case dsl.Float64:
-					return "double(", ")"
-				case dsl.ComplexFloat32:
-					return "complex(single(", "))"
-				case dsl.ComplexFloat64:
-					return "complex(double(", "))"
-				case dsl.String:
-					return "string(", ")"
-				case dsl.Date:
-					return "yardl.Date(", ")"
-				case dsl.Time:
-					return "yardl.Time(", ")"
-				case dsl.DateTime:
-					return "yardl.DateTime(", ")"
-				}
+		// The target may be an alias of a primitive type
+		if primitive, ok := dsl.GetPrimitiveType(t); ok {
+			switch primitive {
+			case dsl.Bool:
+				return "logical(", ")"
+			case dsl.Int8:
+				return "int8(", ")"
+			case dsl.Uint8:
+				return "uint8(", ")"
+			case dsl.Int16:
+				return "int16(", ")"
+			case dsl.Uint16:
+				return "uint16(", ")"
+			case dsl.Int32:
+				return "int32(", ")"
+			case dsl.Uint32:
+				return "uint32(", ")"
+			case dsl.Int64:
+				return "int64(", ")"
+			case dsl.Uint64, dsl.Size:
+				return "uint64(", ")"
+			case dsl.Float32:
+				return "single(", ")"
+			case dsl.Float64:
+				return "double(", ")"
+			case dsl.ComplexFloat32:
+				return "complex(single(", "))"
+			case dsl.ComplexFloat64:
+				return "complex(double(", "))"
+			case dsl.String:
+				return "string(", ")"
+			case dsl.Date:
+				return "yardl.Date(", ")"
+			case dsl.Time:
+				return "yardl.Time(", ")"
+			case dsl.DateTime:
+				return "yardl.DateTime(", ")"
 			}
 		}
 		panic(fmt.Sprintf("Unsupported type '%s'", t))
